@@ -52,6 +52,11 @@ CHECKS = {
    text="TLC checks LineMinIsMin, LineMaxAtEnd and WitnessBounds along the walk over the witnesses for 10 lattice segments (lines, parabola with its centre of curvature and focus, cusped, folded and S-shaped cubics) x 15 query points (far, near, on the curve, beyond the ends); each case - plain, scaled 1e-3 with an offset, rotated 30 degrees and scaled 1e4 - must return parameters in [0,1], d = |point(t)-z|, no witness closer than dmin or farther than dmax, the exact projection on lines and 0 for points on the curve; random paths of model segments: the extreme over the segments with the index of the segment attaining it.",
    note="Trusted: TLC. Optimality between witnesses (spacing 1/8, 1/16 thorough) is not decided for curved segments.",
    ref="4 (C13)"),
+ 'C14': dict(
+   technique="TLA+ lattice model of signed area (shoelace / Green's formula for polynomial segments) and of even-odd enclosure by exact orientation predicates with a general-position predicate (Area.tla) model-checked with TLC; every polygon, probe and containment pair replayed through area / path_encloses_pt / is_contained_by",
+   text="TLC checks RevNegates, TranslationInvariant, DetScales, RotationInvariantStart, PolygonAgrees (Green = shoelace), BezRevNegates and ParityIndependentOfOpt for every polygon of 3..4 (5 thorough) distinct vertices of two grids; each polygon's area() must equal the exact value, change sign under reversed(), be invariant under translation and a shear and scale by the determinant; path_encloses_pt must equal the model's crossing parity for every half-integer probe proved to be in general position (proper crossings or strict separation, pairwise distinct crossing points); is_contained_by for a triangle at 8 offsets (only pairs in general position); closed Bezier paths against exact Green areas; ellipses from arcs within the chord bound with the sign of the sweep.",
+   note="Trusted: TLC. Non-generic probes (through a vertex / self-intersection point / touching) are not generated: the library merges crossings at one point and the property excludes them.",
+   ref="4 (C14), 3.11"),
  'C15': dict(
    technique="TLA+ model of end tangents of Bezier curves with coincident control points (BezierTan.tla: Taylor expansion at the ends) model-checked with TLC, plus the lattice arc walk; every model curve, under lattice similarities and reversal, replayed through unit_tangent / normal / curvature",
    text="TLC checks TaylorAt0 / TaylorAt1 (all lower derivatives vanish at the end and the first non-vanishing one is the stated positive multiple of the first non-vanishing control difference, in the direction of travel) for every degree 2-3 curve with 0-2 coincident control points at either end heading into 12 directions; each curve - plain, translated, rotated by 90k/30/-45 degrees, scaled by 2, 1/2, -3, and reversed - must give unit_tangent(0/1) = the model direction with its sign, modulus 1, normal = -i tangent, and the exact tangent/curvature at t = 1/2 from the model's integer derivatives; lines; lattice arcs: tangent along the sweep, curvature 1/r on circles and the closed form on ellipses.",
